@@ -140,7 +140,7 @@ def Sys.outWire (s : Sys) (x : Nat) : Wire := if x = 0 then s.ab else s.ba
 def Sys.setOutWire (s : Sys) (x : Nat) (w : Wire) : Sys := if x = 0 then { s with ab := w } else { s with ba := w }
 
 inductive OpKind
-  | open | dial | listen | accept | acceptbg | lclose | write | read | readbg | closeconn
+  | open | dial | listen | accept | acceptbg | lclose | write | read | readbg | join | closeconn
   | closemux | cut
 deriving DecidableEq, Repr
 
@@ -345,6 +345,17 @@ def Sys.apply (s : Sys) (idx : Nat) (op : Op) (seen : Seen) (late : Option Seen)
             | .err "enomem" => .enomem
             | _ => .err (e.st.err.getD .eof)
           pure (s.setEnd x { e' with done := e'.done ++ [(idx, res)] })
+    | .join =>
+      -- wait for the background Read issued as op `k`
+      match e.done.find? (·.1 == op.k), seen with
+      | some (_, .data p n), .data p' n' =>
+        if p == p' && n == n' then pure s else throw s!"join {op.k}: model data differs from the implementation's"
+      | some (_, .err me), .err k =>
+        if errOk me k then pure s else throw s!"join {op.k}: model error {me.name}, implementation {k}"
+      | some (_, .enomem), .err "enomem" => pure s
+      | none, .blocked => pure s
+      | some _, r => throw s!"join {op.k}: the background Read has completed in the model, implementation {r.show}"
+      | none, r => throw s!"join {op.k}: the background Read is still blocked in the model, implementation {r.show}"
     | .closeconn =>
       expect "conn close" "ok" seen (seen == .ok 0)
       match e.fire (.closeConn op.h) with
